@@ -13,6 +13,7 @@ import (
 	"github.com/pion/ice/v4"
 	"github.com/pion/logging"
 	"github.com/pion/transport/v4/packetio"
+	"github.com/pion/webrtc/v4/internal/verifhook"
 )
 
 const (
@@ -115,6 +116,7 @@ func (m *Mux) Close() error {
 }
 
 func (m *Mux) readLoop() {
+	defer verifhook.Point("mux.rd.exit")
 	defer func() {
 		close(m.closedCh)
 	}()
@@ -148,6 +150,7 @@ func (m *Mux) readLoop() {
 }
 
 func (m *Mux) dispatch(buf []byte) error {
+	verifhook.Point("mux.rd.dispatch")
 	if len(buf) == 0 {
 		m.log.Warnf("Warning: mux: unable to dispatch zero length packet")
 
@@ -188,6 +191,7 @@ func (m *Mux) dispatch(buf []byte) error {
 	}
 
 	m.lock.Unlock()
+	verifhook.Point("mux.rd.write")
 	_, err := endpoint.buffer.Write(buf)
 
 	// Expected when bytes are received faster than the endpoint can process them (#2152, #2180)
